@@ -288,7 +288,7 @@ def mutate_tree(rng, tree):
 
 
 def mutate_bytes(rng, body):
-    k = rng.choice(['truncate', 'flip', 'insert', 'delete', 'empty', 'garbage', 'encoding', 'bom', 'prefix', 'doctype',
+    k = rng.choice(['truncate', 'flip', 'insert', 'delete', 'empty', 'garbage', 'encoding', 'encoding', 'bom', 'prefix', 'doctype',
                     'comment', 'badutf8', 'utf16'])
     if k == 'truncate':
         return body[:rng.randrange(len(body))], 'fuzz'
@@ -306,8 +306,13 @@ def mutate_bytes(rng, body):
     if k == 'garbage':
         return bytes(rng.randrange(256) for _ in range(rng.randint(1, 60))), 'fuzz'
     if k == 'encoding':
-        return body.replace(b'encoding="utf-8"', rng.choice([b'encoding="latin-1"', b'encoding="us-ascii"', b'encoding="foo"',
-                                                             b'encoding="utf-16"'])), 'fuzz'
+        if rng.random() < 0.6:
+            # an encoding name the XML parser does not know or support: malformed XML like any other
+            enc = rng.choice([b'foo', b'utf-32', b'euc-jp', b'x-user-defined-foo', b'hex', b'ebcdic', b'shift_jis', b'utf-7',
+                              b'idna', b'rot13', b'base64', b'', b'utf-16'])
+            return body.replace(b'encoding="utf-8"', b'encoding="' + enc + b'"'), 'ill_formed_xml'
+        return body.replace(b'encoding="utf-8"', rng.choice([b'encoding="latin-1"', b'encoding="us-ascii"',
+                                                             b'encoding="cp1252"', b'encoding="UTF-8"'])), 'fuzz'
     if k == 'bom':
         return b'\xef\xbb\xbf' + body, 'fuzz'
     if k == 'prefix':
@@ -506,18 +511,26 @@ class Session:
         return None
 
 
-def exchange(port, raw, half_close=True):
+def open_send(port, raw):
+    """connect and send; the connection stays open in both directions"""
     s = socket.socket(socket.AF_INET, socket.SOCK_STREAM)
     s.settimeout(TIMEOUT)
     try:
         s.connect(('127.0.0.1', port))
     except OSError:
         s.close()
-        return 'connect_failed', b''
+        return None
     try:
         s.sendall(raw)
     except OSError:
         pass                     # the server has answered and closed already
+    return s
+
+
+def finish(s, half_close=True):
+    """optionally stop sending, then read until the server closes (or the timeout: a blocked handler)"""
+    if s is None:
+        return 'connect_failed', b''
     if half_close:
         try:
             s.shutdown(socket.SHUT_WR)
@@ -539,6 +552,10 @@ def exchange(port, raw, half_close=True):
         buf += d
     s.close()
     return st, buf
+
+
+def exchange(port, raw, half_close=True):
+    return finish(open_send(port, raw), half_close)
 
 
 # --------------------------------------------------------------------------- model inputs from the in-process parser
@@ -686,6 +703,24 @@ def gen_session(rng, thorough, idx):
         spec['ev'] = 'req'
         events.append(spec)
         insts.append(inst)
+    if rng.random() < 0.4:
+        # one stalled peer somewhere in the history (valid body, but more octets announced than sent, or the
+        # body cut short), given up only after the final indication or at an explicit 'unstall'
+        sp, _ = gen_request(random.Random(rng.random()), idx * 1000 + 998)
+        while sp['intent'] != 'valid' or sp['cl'] != 'exact' or 'keep_open' in sp:
+            sp, _ = gen_request(random.Random(rng.random()), idx * 1000 + 998)
+        body = unb64(sp['body'])
+        if rng.random() < 0.5:
+            sp['cl'] = str(len(body) + rng.choice([1, 10, 1000]))
+        else:
+            sp['cl'] = str(len(body))
+            sp['body'] = b64(body[:rng.randrange(len(body))])
+        sp['intent'] = 'stalled'
+        sp['ev'] = 'req'
+        pos = rng.randrange(len(events) + 1)
+        events.insert(pos, {'ev': 'stall', 'spec': sp})
+        if rng.random() < 0.4:
+            events.insert(rng.randrange(pos + 1, len(events) + 1), {'ev': 'unstall'})
     final, finst = None, None
     while final is None or final['intent'] != 'valid' or final['cl'] != 'exact' or 'keep_open' in final:
         final, finst = gen_request(random.Random(rng.random()), idx * 1000 + 999)
@@ -706,7 +741,8 @@ def run_session(case, async_stop=False):
     import pywbem
     sess = Session(case['cap'], case['gated'])
     del _handler_excs[:]
-    accepted = 0
+    state = {'accepted': 0}
+    pending = []             # stalled connections: (request spec, index of the stall event, socket)
     acc_parsed = []          # in-process parse of every acknowledged indication, in order
     model_events, real_obs, viol, stats = [], [], [], {}
 
@@ -714,18 +750,104 @@ def run_session(case, async_stop=False):
         stats[k] = stats.get(k, 0) + 1
 
     def violate(sig, idx, observed):
+        if sig.get('kind') == 'handler_blocked' and pending:
+            sig = dict(sig, while_another_peer_stalls=True)
         viol.append({'sig': sig, 'idx': idx, 'observed': observed})
+        if sig.get('kind') == 'handler_blocked':
+            state['abort'] = True      # every further request would cost another timeout: the history ends here
+
+    req_src = []             # for every model 'req' event: index of the case event it came from
+
+    def do_request(ev, idx, before, sock=None, src=None):
+        req_src.append(idx if src is None else src)
+        raw, hdrs = build_raw(ev)
+        body = unb64(ev['body'])
+        qlen = state['accepted'] - sess.entered
+        nexc = len(_handler_excs)
+        if sock is None:
+            st, buf = exchange(sess.port, raw, half_close=not ev.get('keep_open'))
+        else:
+            st, buf = finish(sock, half_close=True)
+        rsp, problem = parse_response(buf)
+        exc = _handler_excs[nexc] if len(_handler_excs) > nexc else None
+        # ---- model inputs
+        mreq = {'ev': 'req', 'method': common.cps(ev['method']), 'blen': len(body),
+                'headers': [[common.cps(k), common.cps(v)] for k, v in hdrs], 'alloc': ALLOC_LIMIT, 'inst': 'shared'}
+        k = None
+        an = None
+        if ev['method'] == 'POST':
+            k = expected_read(hdrs, len(body))
+            an = analyse(body[:k if k is not None else 0])
+            mreq.update({'k': k if k is not None else 0, 'tree': an['tree'], 'xmlexc': an['xmlexc'],
+                         'msg': common.cps(an['msg']),
+                         'foreign': an['foreign'], 'exctext': common.cps(an['exctext']), 'codec': an['codec'],
+                         'inst_real': an.get('inst_real', [])})
+            if k is None:
+                # Content-Length beyond what read() can allocate: the text of the exception is real input
+                n = py_int(next(v for kk, v in hdrs if kk.lower() == 'content-length'))
+                if n is not None and n > ALLOC_LIMIT:
+                    mreq['exctext'] = common.cps(read_exc(n))
+        if rsp is not None:
+            # Server and Date values are made by http.server: inputs of the model's wire form
+            mreq['server'] = common.cps(hget(rsp['headers'], 'Server') or '')
+            mreq['date'] = common.cps(hget(rsp['headers'], 'Date') or '')
+        model_events.append(mreq)
+        # ---- canonical real observation
+        if rsp is None:
+            real_obs.append({'dropped': exc or problem})
+        elif rsp['status'] == 501:
+            real_obs.append({'stdlib': True})
+        else:
+            try:
+                btxt = common.cps(rsp['body'].decode('utf-8'))
+            except UnicodeDecodeError:
+                btxt = None
+            real_obs.append({'rsp': {'status': rsp['status'], 'reason': common.cps(rsp['reason']), 'body': btxt,
+                                     'headers': [[common.cps(a), common.cps(b)] for a, b in rsp['headers']
+                                                 if a.lower() not in ('server', 'date')]},
+                             'nread': None,
+                             'wire': common.cps(buf[:buf.find(b'\r\n\r\n') + 4].decode('latin-1'))})
+        count('intent:' + ev['intent'])
+        count('status:%s' % (rsp['status'] if rsp else (problem or st)))
+        count('by_intent:%s:%s' % (ev['intent'], rsp['status'] if rsp else (problem or st)))
+        if rsp and hget(rsp['headers'], 'CIMError'):
+            count('cimerror:' + hget(rsp['headers'], 'CIMError'))
+        if an and an['cls']:
+            count('parse_exc:' + an['cls'])
+        # ---- the property on the real bytes
+        oracle_one(ev, st, buf, rsp, problem, exc, an, qlen, sess.capv, idx, violate, count)
+        if is_success(rsp):
+            state['accepted'] += 1
+            acc_parsed.append(an['parsed'][2].get('NewIndication') if an and an['parsed'] else None)
+        if not sess.settle(state['accepted']):
+            violate({'kind': 'delivery_stalled'}, idx, {'entered': sess.entered, 'accepted': state['accepted']})
+        model_events.extend([{'ev': 'deliver'}] * (sess.entered - before))
+        real_obs.extend([None] * (sess.entered - before))
 
     try:
         for idx, ev in enumerate(case['events']):
+            if state.get('abort'):
+                break
             before = sess.entered
             if ev['ev'] == 'release':
                 sess.release()
-                if not sess.settle(accepted):
-                    violate({'kind': 'delivery_stalled'}, idx, {'entered': sess.entered, 'accepted': accepted})
+                if not sess.settle(state['accepted']):
+                    violate({'kind': 'delivery_stalled'}, idx, {'entered': sess.entered, 'accepted': state['accepted']})
                 model_events += [{'ev': 'deliver'}] * (sess.entered - before)
                 real_obs += [None] * (sess.entered - before)
                 count('ev:release')
+                continue
+            if ev['ev'] == 'stall':
+                # a peer that announces more octets than it sends and keeps the connection open: its handler
+                # waits; every OTHER request must still be answered meanwhile
+                raw_s, _ = build_raw(ev['spec'])
+                pending.append((ev['spec'], idx, open_send(sess.port, raw_s)))
+                count('ev:stall')
+                continue
+            if ev['ev'] == 'unstall':
+                while pending:
+                    spec_s, idx_s, sock_s = pending.pop(0)
+                    do_request(spec_s, idx, sess.entered, sock=sock_s, src=idx_s)
                 continue
             if ev['ev'] == 'raw':
                 nexc = len(_handler_excs)
@@ -739,79 +861,30 @@ def run_session(case, async_stop=False):
                 continue
             if ev.get('final'):
                 sess.open_gates()
-                if not sess.settle(accepted):
-                    violate({'kind': 'delivery_stalled'}, idx, {'entered': sess.entered, 'accepted': accepted})
+                if not sess.settle(state['accepted']):
+                    violate({'kind': 'delivery_stalled'}, idx, {'entered': sess.entered, 'accepted': state['accepted']})
                 model_events += [{'ev': 'deliver'}] * (sess.entered - before)
                 real_obs += [None] * (sess.entered - before)
                 before = sess.entered
-            raw, hdrs = build_raw(ev)
-            body = unb64(ev['body'])
-            qlen = accepted - sess.entered
-            nexc = len(_handler_excs)
-            st, buf = exchange(sess.port, raw, half_close=not ev.get('keep_open'))
-            rsp, problem = parse_response(buf)
-            exc = _handler_excs[nexc] if len(_handler_excs) > nexc else None
-            # ---- model inputs
-            mreq = {'ev': 'req', 'method': common.cps(ev['method']), 'blen': len(body),
-                    'headers': [[common.cps(k), common.cps(v)] for k, v in hdrs], 'alloc': ALLOC_LIMIT, 'inst': 'shared'}
-            k = None
-            an = None
-            if ev['method'] == 'POST':
-                k = expected_read(hdrs, len(body))
-                an = analyse(body[:k if k is not None else 0])
-                mreq.update({'k': k if k is not None else 0, 'tree': an['tree'], 'xmlexc': an['xmlexc'],
-                             'msg': common.cps(an['msg']),
-                             'foreign': an['foreign'], 'exctext': common.cps(an['exctext']), 'codec': an['codec'],
-                             'inst_real': an.get('inst_real', [])})
-                if k is None:
-                    # Content-Length beyond what read() can allocate: the text of the exception is real input
-                    n = py_int(next(v for kk, v in hdrs if kk.lower() == 'content-length'))
-                    if n is not None and n > ALLOC_LIMIT:
-                        mreq['exctext'] = common.cps(read_exc(n))
-            if rsp is not None:
-                # Server and Date values are made by http.server: inputs of the model's wire form
-                mreq['server'] = common.cps(hget(rsp['headers'], 'Server') or '')
-                mreq['date'] = common.cps(hget(rsp['headers'], 'Date') or '')
-            model_events.append(mreq)
-            # ---- canonical real observation
-            if rsp is None:
-                real_obs.append({'dropped': exc or problem})
-            elif rsp['status'] == 501:
-                real_obs.append({'stdlib': True})
-            else:
-                try:
-                    btxt = common.cps(rsp['body'].decode('utf-8'))
-                except UnicodeDecodeError:
-                    btxt = None
-                real_obs.append({'rsp': {'status': rsp['status'], 'reason': common.cps(rsp['reason']), 'body': btxt,
-                                         'headers': [[common.cps(a), common.cps(b)] for a, b in rsp['headers']
-                                                     if a.lower() not in ('server', 'date')]},
-                                 'nread': None,
-                                 'wire': common.cps(buf[:buf.find(b'\r\n\r\n') + 4].decode('latin-1'))})
-            count('intent:' + ev['intent'])
-            count('status:%s' % (rsp['status'] if rsp else (problem or st)))
-            count('by_intent:%s:%s' % (ev['intent'], rsp['status'] if rsp else (problem or st)))
-            if rsp and hget(rsp['headers'], 'CIMError'):
-                count('cimerror:' + hget(rsp['headers'], 'CIMError'))
-            if an and an['cls']:
-                count('parse_exc:' + an['cls'])
-            # ---- the property on the real bytes
-            oracle_one(ev, st, buf, rsp, problem, exc, an, qlen, sess.capv, idx, violate, count)
-            if is_success(rsp):
-                accepted += 1
-                acc_parsed.append(an['parsed'][2].get('NewIndication') if an and an['parsed'] else None)
-            if not sess.settle(accepted):
-                violate({'kind': 'delivery_stalled'}, idx, {'entered': sess.entered, 'accepted': accepted})
-            model_events += [{'ev': 'deliver'}] * (sess.entered - before)
-            real_obs += [None] * (sess.entered - before)
+            do_request(ev, idx, before)
+        # the stalled peers give up sending (half-close): their handlers must now answer like for any short body
+        while pending:
+            spec_s, idx_s, sock_s = pending.pop(0)
+            if state.get('abort'):
+                if sock_s is not None:
+                    sock_s.close()
+                continue
+            do_request(spec_s, idx_s, sess.entered, sock=sock_s, src=idx_s)
         # ---- end of history: every acknowledged indication delivered exactly once, in order, unchanged
         sess.open_gates()
-        ok = sess.settle(accepted)
+        ok = state.get('abort') or sess.settle(state['accepted'])
         with sess.lock:
             delivered = list(sess.delivered)
-        if not ok or len(delivered) != accepted:
+        if state.get('abort'):
+            pass
+        elif not ok or len(delivered) != state['accepted']:
             violate({'kind': 'acknowledged_not_delivered'}, len(case['events']) - 1,
-                    {'acknowledged': accepted, 'delivered': len(delivered)})
+                    {'acknowledged': state['accepted'], 'delivered': len(delivered)})
         else:
             for i, (d, p) in enumerate(zip(delivered, acc_parsed)):
                 # tocimxml text instead of ==: NaN reals are not equal to themselves
@@ -834,7 +907,7 @@ def run_session(case, async_stop=False):
     if stop_exc:
         stats['stop_exc:' + stop_exc] = 1
     return {'model_req': {'cap': sess.capv, 'events': model_events}, 'real_obs': real_obs, 'violations': viol,
-            'stats': stats, 'accepted': accepted, 'ndelivered': stats.get('delivered', 0)}
+            'stats': stats, 'req_src': req_src, 'accepted': state['accepted'], 'ndelivered': stats.get('delivered', 0)}
 
 
 _DTD = None
@@ -938,6 +1011,12 @@ def oracle_one(ev, st, buf, rsp, problem, exc, an, qlen, cap, idx, violate, coun
         if hget(hs, 'Content-Type') != 'text/xml' or hget(hs, 'CIMExport') != 'MethodResponse':
             violate(dict(base, kind='export_response_headers'), idx, {'headers': hs})
     # ---- what the property demands for this class of request
+    if an is not None and an.get('read') and an['cls'] is not None and status not in (200, 406) \
+            and not hget(hs, 'CIMError'):
+        # the octets were read and pywbem's own parser refuses them (whatever exception class it used):
+        # malformed request => the error status must carry a CIMError header
+        violate(dict(base, kind='malformed_request_answered_without_cimerror', status=status, parser_exc=an['cls']), idx,
+                {'details': hget(hs, 'CIMErrorDetails')})
     if ev['cl'] not in ('exact', 'missing', 'dup'):
         n = py_int(ev['cl'].lstrip(' \t'))
         if (n is None or n < 0) and status == 200:
@@ -957,12 +1036,10 @@ def oracle_one(ev, st, buf, rsp, problem, exc, an, qlen, cap, idx, violate, coun
         if status == 200 and has_error is False:
             violate(dict(base, kind='duplicate_parameter_accepted'), idx, {})
     elif intent in ('ill_formed_xml', 'wrong_version', 'wrong_element'):
-        leak = an is not None and an['cls'] not in (None, 'CIMXMLParseError', 'XMLParseError', 'CIMVersionError',
-                                                    'DTDVersionError', 'ProtocolVersionError')
-        if leak and status == 500:
-            count('parser_leak_answered_500')     # the parser's own defect (C02); the handler did answer
-        elif not (400 <= status < 500 and hget(hs, 'CIMError')):
-            violate(dict(base, kind='expected_4xx_with_cimerror', status=status), idx, {'body': b64(rsp['body'][:300])})
+        if not (400 <= status < 600 and hget(hs, 'CIMError')):
+            violate(dict(base, kind='expected_4xx_with_cimerror', status=status,
+                         parser_exc=an['cls'] if an else None), idx,
+                    {'body': b64(rsp['body'][:300]), 'details': hget(hs, 'CIMErrorDetails')})
         elif intent == 'wrong_version' and not hget(hs, 'CIMError').startswith('unsupported-'):
             violate(dict(base, kind='wrong_cimerror', cimerror=hget(hs, 'CIMError')), idx, {})
 
@@ -1046,21 +1123,26 @@ def _session_job(args):
 
 
 def minimise(case, v):
-    """smallest replayable history that still shows the violation: the single request (+ final), else the prefix"""
+    """smallest replayable history that still shows the violation: the single request (+ final), else the last
+    stalled peer + the request, else the prefix"""
     idx = v['idx']
     ev = case['events'][idx]
     final = case['events'][-1]
-    if ev['ev'] != 'req':
-        return {'cap': case['cap'], 'gated': case['gated'], 'events': case['events'][:idx + 1] + [final]}
-    single = {'cap': case['cap'], 'gated': False, 'events': [ev] + ([final] if ev is not final else [])}
-    try:
-        r = run_session(single)
-        if any(x['sig'] == v['sig'] for x in r['violations']):
-            return single
-    except Exception:  # noqa
-        pass
-    return {'cap': case['cap'], 'gated': case['gated'], 'events': case['events'][:idx + 1] +
-            ([final] if idx + 1 < len(case['events']) else [])}
+    tail = [final] if ev is not final else []
+    cands = []
+    if ev['ev'] == 'req':
+        cands.append({'cap': case['cap'], 'gated': False, 'events': [ev] + tail})
+    stalls = [e for e in case['events'][:idx] if e['ev'] == 'stall']
+    if stalls:
+        cands.append({'cap': case['cap'], 'gated': False, 'events': [stalls[-1], ev] + tail})
+    for cand in cands:
+        try:
+            r = run_session(cand)
+            if any(x['sig'] == v['sig'] for x in r['violations']):
+                return cand
+        except Exception:  # noqa
+            pass
+    return {'cap': case['cap'], 'gated': case['gated'], 'events': case['events'][:idx + 1] + tail}
 
 
 def _register_module():
@@ -1138,10 +1220,11 @@ def compare_session(run, res, ans, second=False):
             for kv in m2['rsp']['headers']:
                 kv[1] = common.cps(common.from_cps(kv[1]).strip(' \t'))
         if m2 != r:
-            spec_i = [e for e in case['events'] if e['ev'] == 'req']
             nreq = len([e for e in evs[:i + 1] if e['ev'] == 'req'])
+            src_ev = case['events'][res['req_src'][nreq - 1]]
+            src_ev = src_ev.get('spec', src_ev)
             run.disagree({'cap': case['cap'], 'request_no': i, 'method': evs[i].get('method'),
-                          'headers': evs[i].get('headers'), 'body': spec_i[nreq - 1]['body']}, m2, r, 'response')
+                          'headers': evs[i].get('headers'), 'body': src_ev.get('body')}, m2, r, 'response')
             break
     if len(ans.get('accepted', [])) != res['accepted'] or len(ans.get('delivered', [])) != res['ndelivered']:
         run.disagree({'cap': case['cap']}, {'accepted': len(ans.get('accepted', [])), 'delivered': len(ans.get('delivered', []))},
@@ -1178,7 +1261,7 @@ def run(run):
                                                    for e in r['model_req']['events']]} for r in results])
     for res, ans in zip(results, answers):
         case = res['case']
-        reqs = [e for e in case['events'] if e['ev'] == 'req']
+        reqs = [e.get('spec', e) for e in case['events'] if e['ev'] in ('req', 'stall')]
         for j, e in enumerate(reqs):
             run.case({'m': e['method'], 'h': e['headers'], 'cl': e['cl'], 'b': e['body'][:400], 'j': j},
                      nontrivial=True)
